@@ -1265,6 +1265,12 @@ int32 psPkcs12ParseMem(psPool_t *pool, psX509Cert_t **cert, psPubKey_t *privKey,
             rc = PS_PARSE_FAIL;
             goto ERR_PARSE;
         }
+        if (tmplen != SHA1_HASH_SIZE)
+        {
+            psTraceCrypto("Unexpected MAC digest length\n");
+            rc = PS_PARSE_FAIL;
+            goto ERR_PARSE;
+        }
         Memcpy(digest, p, tmplen);
         p += tmplen;
         if ((end - p) < 1 || (*p++ != ASN_OCTET_STRING) ||
